@@ -87,6 +87,9 @@ func Bytes(n int, tag string) []byte {
 // Choice returns an arbitrary value in [0,n); the engine forks (every path
 // has concrete shapes). Natively it follows the recorded decisions.
 func Choice(n int, tag string) int {
+	if n <= 1 {
+		return 0 // the engine records no decision for a one-way choice
+	}
 	mu.Lock()
 	defer mu.Unlock()
 	load()
